@@ -14,6 +14,7 @@ import (
 	"runtime"
 	"strconv"
 	"strings"
+	"testing/synctest"
 
 	"github.com/whawty/auth/zzverif/simfs"
 	"github.com/whawty/auth/zzverif/simrt"
@@ -73,20 +74,44 @@ func (w *World) interleaveReader(f *simfs.FS, writer func(), reader func(obs *[]
 	start(1, func() { reader(&obs) })
 	switches := 0
 	last := -1
-	for !procs[0].done || !procs[1].done {
+	// a process normally stops only at the gate; one that blocks somewhere else (a lock or a
+	// channel of the code under test) simply does not arrive, and the others go on
+	pending := []bool{false, false}
+	for {
+		synctest.Wait()
+		for more := true; more; {
+			select {
+			case k := <-arrived:
+				pending[k] = false
+			default:
+				more = false
+			}
+		}
 		var cand []int
+		waiting := 0
 		for i, p := range procs {
-			if !p.done {
+			if p.done {
+				continue
+			}
+			if pending[i] {
+				waiting++
+			} else {
 				cand = append(cand, i)
 			}
+		}
+		if len(cand) == 0 {
+			if waiting > 0 {
+				r.Fail("race/processes-block-each-other", "two store operations in one process block each other for good (neither reaches its next file-system operation)")
+			}
+			break
 		}
 		i := cand[r.Choose("who-runs", len(cand))]
 		if i != last {
 			switches++
 			last = i
 		}
+		pending[i] = true
 		procs[i].turn <- struct{}{}
-		<-arrived // it reached its next file-system operation, or finished
 	}
 	f.Gate = nil
 	return obs, switches
